@@ -285,11 +285,27 @@ def r4(tree, rep):
                   key="C05.R4:%s:ask" % m)
 
 
+def r5(tree, rep):
+    """a refused offer writes nothing: every filesystem-creating call of the two offer handlers comes after _ask_permission()"""
+    for m in ("_handle_file", "_handle_directory"):
+        f = tree.func(RX, "Receiver", m)
+        g = build(f)
+        ask = g.call_nodes(lambda c: dotted(c.func) == "self._ask_permission")
+        creates = g.call_nodes(lambda c: dotted(c.func) in ("open", "os.mkdir", "os.makedirs", "tempfile.SpooledTemporaryFile", "tempfile.NamedTemporaryFile")
+                               and not (dotted(c.func) == "tempfile.SpooledTemporaryFile"))
+        ok = len(ask) == 1 and not g.precedes(ask, creates)
+        rep.check("C05.R5", "Receiver.%s creates nothing under the working directory before the offer was accepted" % m, ok, site(f, RX),
+                  key="C05.R5:%s:create-after-permission" % m,
+                  what="%s opens / creates a file before the user (or the free-space check) accepted the offer: a refused offer leaves "
+                       "or truncates <name>.tmp" % m)
+
+
 def run(tree, rep, tier):
     r1(tree, rep)
     r2(tree, rep)
     r3(tree, rep)
     r4(tree, rep)
+    r5(tree, rep)
 
 
 MUTANTS = [
